@@ -32,6 +32,10 @@ type KeySpec struct {
 	KeySeed    int            `json:"key_seed"`
 	Retry      bool           `json:"retry"`
 	OwnEncoder bool           `json:"own_encoder,omitempty"` // config bytes from the harness encoder instead of ech.ConfigSpec
+	// Non-canonical encodings (harness encoder only): maximum_name_length not
+	// derived from the name, and a non-empty (non-mandatory) extensions block.
+	MaxNameDelta int  `json:"max_name_delta,omitempty"`
+	ExtraExt     bool `json:"extra_ext,omitempty"`
 }
 
 func (k KeySpec) material() (priv, pub, cfg []byte) {
@@ -44,8 +48,13 @@ func (k KeySpec) material() (priv, pub, cfg []byte) {
 		}
 	}
 	priv, pub = echbox.KeyFromSeed(seed)
-	if k.OwnEncoder {
-		cfg = echbox.BuildConfig(k.ID, pub, k.PublicName, k.Suites, byte(min(len(k.PublicName)+16, 255)))
+	if k.OwnEncoder || k.MaxNameDelta != 0 || k.ExtraExt {
+		mnl := byte(min(len(k.PublicName)+16, 255) + k.MaxNameDelta)
+		if k.ExtraExt {
+			cfg = echbox.BuildConfigExt(k.ID, pub, k.PublicName, k.Suites, mnl, []byte{0x12, 0x34, 0, 3, 1, 2, 3})
+		} else {
+			cfg = echbox.BuildConfig(k.ID, pub, k.PublicName, k.Suites, mnl)
+		}
 		return
 	}
 	spec := ech.ConfigSpec{Version: 0xfe0d, ID: k.ID, KEM: 0x0020, PublicKey: pub, PublicName: []byte(k.PublicName)}
@@ -439,7 +448,8 @@ func executeLive(t *testing.T, prop string, seed uint64, p *LivePlan) *core.Resu
 		}
 		slices.Sort(pubNames)
 		if len(pubNames) > 0 {
-			lw.pubCfg = &tls.Config{Certificates: []tls.Certificate{leafCert("public", 0, pubNames...)}, EncryptedClientHelloKeys: lw.keys, MinVersion: tls.VersionTLS12}
+			lw.pubCfg = &tls.Config{Certificates: []tls.Certificate{leafCert("public", 0, pubNames...)}, EncryptedClientHelloKeys: lw.keys, MinVersion: tls.VersionTLS12,
+				CurvePreferences: base.CurvePreferences} // the public-name server may answer with HelloRetryRequest too
 		}
 		if p.Stale.PublicName != "" && lw.pubCfg == nil {
 			lw.pubs[p.Stale.PublicName] = true
